@@ -63,7 +63,7 @@ theorem wfCtx_of_exports (im : ImportMap) (r : Resolver) (hown : GoodExports r.e
 
 /-- a source file whose path has a directory part and whose elements are well formed -/
 def WfFile : SrcFile → Bool
-  | .j5s path _ elems => containsByte 47 path && WfElems elems
+  | .j5s path _ elems _ => containsByte 47 path && WfElems elems
   | .proto path _ _ => containsByte 47 path
 
 def WfBundle (b : Bundle) : Prop := ∀ p ∈ b.pkgs, ∀ f ∈ p.files, WfFile f = true
@@ -133,8 +133,12 @@ theorem fileSummary_good (f : SrcFile) (h : WfFile f = true) :
     intro kt hkt
     simp only [List.mem_append, List.mem_map] at hkt
     rcases hkt with ⟨n, _, rfl⟩ | ⟨⟨n, vals⟩, _, rfl⟩ <;> exact badImport_of_contains _ h
-  | j5s path imports elems =>
+  | j5s path imports elems decl =>
     simp only [WfFile, Bool.and_eq_true] at h
+    by_cases hd : decl ≠ packageFromFilename path
+    · rw [fileSummary, if_pos hd]
+      exact ⟨rfl, fun s hs => by cases hs⟩
+    rw [fileSummary, if_neg hd]
     have hitems : ∀ i ∈ elems.flatMap (itemsOfElem (packageFromFilename (path ++ b!".proto"))),
         WfItem i = true := by
       intro i hi
@@ -142,7 +146,7 @@ theorem fileSummary_good (f : SrcFile) (h : WfFile f = true) :
       exact itemsOfElem_wf _ el ((List.all_eq_true.mp h.2) el hel) i hiel
     have hw := walkItems_no_panic _ hitems
     have hj := j5Imports_no_panic (packageFromFilename (path ++ b!".proto")) imports
-    simp only [fileSummary, sourceSummary]
+    simp only [sourceSummary]
     cases hwi : walkItems (elems.flatMap (itemsOfElem (packageFromFilename (path ++ b!".proto")))) with
     | panic w => rw [hwi] at hw; cases hw
     | err t => exact ⟨rfl, fun s hs => by cases hs⟩
@@ -208,7 +212,7 @@ theorem convertAll_no_panic (res : Resolver)
     have hf := h f (by simp)
     cases f with
     | proto path msgs enums => simpa [convertAll] using ihr
-    | j5s path imports elems =>
+    | j5s path imports elems decl =>
       simp only [WfFile, Bool.and_eq_true] at hf
       have hc := convertFile_no_panic res path imports elems hres hf.2
       unfold convertAll
